@@ -60,6 +60,13 @@ def scenarios():
         steps=[('raw', F(1, peer.compress(b'compressed hello ' * 4), rsv=4)), ('raw', F(2, peer.compress(b'\x00' * 300), rsv=4)), ('eof',)],
         policy={'text': [['send_text', 'zip zip zip zip']], 'binary': [['send_binary', b'zzzzzzzzzz']]},
         ckw=dict(ping_rate=0), z=True, cutsteps=True)
+    # through an HTTP proxy: the CONNECT exchange is part of "before the connection is up" - a transport failure
+    # there (or a proxy that refuses or hangs up) is a ConnectFail, and the socket to the proxy is closed
+    sc['via-proxy'] = dict(steps=[('raw', F(1, b'hello')), ('await_frames', 1), ('raw', F(9, b'pp')), ('eof',)],
+                           policy={'text': [['send_text', 'reply']]}, ckw=dict(ping_rate=0),
+                           proxy=b'HTTP/1.1 200 Connection established\r\nVia: 1.1 p\r\n\r\n')
+    sc['proxy-refuses'] = dict(steps=[], policy={}, ckw=dict(ping_rate=0), proxy=b'HTTP/1.1 407 Proxy Authentication Required\r\n\r\n')
+    sc['proxy-hangs-up'] = dict(steps=[], policy={}, ckw=dict(ping_rate=0), proxy=b'HTTP/1.1 200 Connection est')
     sc['send-every'] = dict(steps=[('raw', F(1, b'a') + F(9, b'') + F(10, b'')), ('raw', F(2, b'b')), ('eof',)],
                             policy={'*': [['send_text', 's'], ['send_ping', b'']]}, ckw=dict(ping_rate=0), cutsteps=True)
     return sc
@@ -83,14 +90,21 @@ def make_world(sc, faults=None, rx_limit=None, addrs=None, cuts=None):
             if st[0] == 'raw':
                 off += len(st[1])
                 cuts.append(off)
-    return H.World(H.hs_server(sc['steps'], hs), faults=faults, rx_limit=rx_limit, addrs=addrs, cuts=cuts,
+    factory = H.hs_server(sc['steps'], hs)
+    if sc.get('proxy'):
+        from .. import simnet
+        ok = sc['proxy'].startswith(b'HTTP/1.1 200') and sc['proxy'].endswith(b'\r\n\r\n')
+        psteps = [('proxy', sc['proxy'])] + ([('hs', hs)] + list(sc['steps']) if ok else [('eof',)])
+        factory = lambda _i: simnet.ScriptServer(psteps)       # noqa
+    return H.World(factory, faults=faults, rx_limit=rx_limit, addrs=addrs, cuts=cuts,
                    horizon=sc.get('horizon', 0.0), stop_at=sc.get('stop'), budget=20000)
 
 
 def run_sc(sc, **kw):
     w = make_world(sc, **kw)
-    run = H.drive(w, ws_kwargs=dict(compress=True) if sc.get('z') else None, connect_kwargs=sc['ckw'],
-                  policy=H.TablePolicy(sc['policy']))
+    wskw = dict(compress=True) if sc.get('z') else {}
+    wskw['proxies'] = {'http': 'http://proxy.local:3128', 'https': 'http://proxy.local:3128'} if sc.get('proxy') else {}
+    run = H.drive(w, ws_kwargs=wskw, connect_kwargs=sc['ckw'], policy=H.TablePolicy(sc['policy']))
     return run, w
 
 
@@ -308,6 +322,8 @@ def judge(case, sc, b, run, w):
         if fidx is not None and last.graceful:
             wrote = b''.join(e[5] for e in w.log[:fidx] if e[0] == 'sendall')
             i = wrote.find(b'\r\n\r\n')
+            if sc.get('proxy') and i >= 0:
+                i = wrote.find(b'\r\n\r\n', i + 4)      # CONNECT block, then the upgrade request
             frames = refws.decode_client_stream(wrote[i + 4:])[0] if i >= 0 else []
             client_close = any(f['opcode'] == 8 for f in frames)
             # a faulted Close write also counts as "the client started closing"
@@ -325,7 +341,7 @@ def judge(case, sc, b, run, w):
             if not client_close and not server_close_seen:
                 return 'graceful-disconnect-without-closing-handshake', detail
     # library-write faults must not disturb the event stream
-    if case['kind'] == 'point' and case['op'] == 'sendall' and case['k'] > 0 and w.faults_hit:
+    if case['kind'] == 'point' and case['op'] == 'sendall' and case['k'] > (1 if sc.get('proxy') else 0) and w.faults_hit:
         fe = [e for e in w.log if e[0] == 'sendall_fault']
         if fe and not fe[0][3]:     # not written by the application
             got = [H.norm(e) for e in evs if e.name != 'poll']
